@@ -157,8 +157,9 @@ def unit_post_collect(S):
     S.under_contract(F_POST)
     S.assume_ids("callee contract: RolloutBuffer.compute_returns_and_advantages (proved in unit gae)")
     from lerax.algorithm import REINFORCE
-    for algo_name, mk in (("PPO", lambda: PPO(num_envs=1, num_steps=4, num_batches=1)),
-                          ("A2C", lambda: A2C(num_envs=1, num_steps=4))):
+    NE, TS = extract.symbolic_dims("NE, TS")   # post_collect must not depend on the number of environments / steps
+    for algo_name, mk in (("PPO", lambda: PPO(num_envs=NE, num_steps=TS, num_batches=1)),
+                          ("A2C", lambda: A2C(num_envs=NE, num_steps=TS))):
         ctx = Ctx()
         env = GenericEnv(Box(-jnp.ones((2,)), jnp.ones((2,))))
         pol = GenericActorCriticPolicy(env.action_space, env.observation_space)
